@@ -221,6 +221,13 @@ def run(res, tier, seed):
             i = rng.randrange(len(b))
             b[i] ^= rng.randrange(1, 256)
             faults.append(("gzip-flip-%d" % i, bytes(b)))
+        # short gzip members (shorter than a header) whose trailer -- CRC or length -- is wrong, and intact ones
+        import struct as _struct
+        for payload in (b"NSS.GHRR.NK" * 3, b"x" * 10, base[:200]):
+            raw = gzip.compress(payload)
+            faults += [("gzip-short-badcrc-%d" % len(payload), raw[:-8] + _struct.pack("<I", 12345) + raw[-4:]),
+                       ("gzip-short-badlen-%d" % len(payload), raw[:-4] + _struct.pack("<I", 7)),
+                       ("gzip-short-intact-%d" % len(payload), raw)]
         for label, blob in faults:
             fo = io.BytesIO(blob)
             p0 = rng.choice([0, 0, min(len(blob), 3)])
